@@ -169,6 +169,14 @@ func runC06(c *fw.Case) {
 				puts++
 			}
 		}
+		if r.Intn(6) == 0 {
+			// deleting the EMPTY key is accepted: its tombstone is the first record of the table that is flushed next
+			if err := db.Delete(""); err == nil {
+				c.Obs("tables_starting_with_the_empty_key_tombstone", 1)
+				note("Delete(\"\")")
+				c.HashAdd("empty-key-tombstone")
+			}
+		}
 		if err := db.VerifForceRotate(); err != nil {
 			c.Violate("compaction/rotate-error", "%v", err)
 			return false
